@@ -95,6 +95,16 @@ CHECKS = {
             'decided; round2float, span_loss, select_edfa uninterpreted here.',
             'gated value graph (SSA with gamma nodes) + rational normal form with min/max lemmas + structural chaining check',
             'DESIGN.md 4 C09'),
+    'C10': ('other',
+            'Decision-list extraction and sibling agreement over amplifier selection: precedence of restriction sources with '
+            'previous-ROADM/booster and next-ROADM/preamp pairing; the band-cover comparison (same model, same band, f_min <= '
+            'and f_max >=) at every site; minimum-NF choice over the filtered list; Raman eligibility over the whole '
+            'per-frequency loss array (value graph); capability score of both candidate lists as normal forms and the chain '
+            'of filters followed through local definitions.',
+            'That the chosen model can deliver when several fall-backs interact over arbitrary libraries is data dependent and '
+            'not decided.',
+            'decision-list and sibling-site agreement + value graph of the capability score',
+            'DESIGN.md 4 C10'),
     'C11': ('other',
             'Necessary structural conditions of routing: both searches rank by the edge attribute that every add_edge sets '
             'to the length of its source fibre (per-edge value check); the exception-handler / outcome table of the '
